@@ -25,6 +25,11 @@
 (*                  in lattice units (n = number of border points, c =     *)
 (*                  their centroid): fixed point with factor F per point   *)
 (*      raised      the call raised an exception                           *)
+(*      off         [ky, kx, e]: every coordinate handed to the call was   *)
+(*                  translated by (ky, kx) * 2^e ticks (and scaled by the  *)
+(*                  power-of-two tick); grid / pts / out are recorded in   *)
+(*                  the UNtranslated frame, the expectation is the same    *)
+(*                  (Relocation!RelTranslationInvariant, RelScaleCovariant)*)
 (*      rep         the input representation in which the SAME lattice     *)
 (*                  coordinates were handed to the call (float64 grid /    *)
 (*                  ndarray, integer dtype, Python int tuples, float32);   *)
@@ -191,6 +196,7 @@ Sig(r) ==
     THEN IF SubsOk(r) /\ \A k \in DOMAIN r.sub : r.sub[k] = r.sub[1] THEN "select-uniform-sub" ELSE "select-mixed-sub"
     ELSE IF r.api = "relocate"
     THEN r.call \o (IF r.rep \in {"f64-irregular", "f64-ndarray"} THEN "" ELSE "-" \o r.rep)
+                \o (IF r.off[1] # 0 \/ r.off[2] # 0 THEN "-far-from-origin" ELSE "")
                 \o (IF r.hist > 0 THEN "-on-reused-relocator" ELSE "")
                 \o (IF r.raised THEN "-raised" ELSE IF Len(r.bidx) = 1 THEN "-single-border-point" ELSE "")
     ELSE r.api
